@@ -23,6 +23,13 @@ class SCharSet:
             ch = c.c[0]
             if isinstance(ch, str):
                 return ord(ch) in self.codes
+            from .sbytes import known_codes
+            k = known_codes(ch)
+            if k is not None:
+                if k <= set(self.codes):
+                    return True             # e.g. the output of this very alphabet's encoding table
+                if not (k & set(self.codes)):
+                    return False
             return bool(SBool(z3.Or(*[ch == x for x in self.codes]))) if self.codes else False
         if isinstance(c, SInt):
             return sym.elem_in(c, self.codes)
@@ -336,7 +343,8 @@ def env_triples(H):
         if not getattr(k, "__module__", "").startswith(("passlib.handlers", "libpass")):
             continue
         for attr in list(vars(k)):
-            if (attr in ("from_string", "parse", "to_string", "_get_config") or attr.startswith("_parse_")) and (k, attr) not in done:
+            if (attr in ("from_string", "parse", "to_string", "_get_config", "_calc_checksum", "_norm_hash") or attr.startswith("_parse_")) \
+                    and (k, attr) not in done:
                 done.add((k, attr))
                 try:
                     out.append(instrument_attr(k, attr, opts=("fmt", "fstr", "idx", "join", "in")))
